@@ -82,6 +82,9 @@ def cases(ctx):
                 count += 1
                 yield {"version": version, "steps": steps}
     ctx.exhaustive["type-table-and-scale-cases"] = count
+    for i in range(ctx.pick(400, 20000) // ctx.shard_count):
+        version = [None, *VERSIONS][i % 6]
+        yield {"version": version, "steps": histories.rich_history(rng, version, rng.choice([20, 60, 150]))}
     for i in range(ctx.pick(600, 24000) // ctx.shard_count):
         version = [None, *VERSIONS][i % 6]
         gen = histories.HistoryGen(rng, version)
